@@ -368,10 +368,26 @@ fn cross_table(tables: &[Table<'_>], kind: WrittenKind, rel: Relations, problems
 /// post version 2.0: numberOfGlyphs equals maxp.numGlyphs, every glyphNameIndex refers to a
 /// standard name or to a Pascal string that is inside the table.
 fn check_post_v2(post: &[u8], num_glyphs: usize, problems: &mut Problems) {
-    if be32(post, 0) != Some(0x0002_0000) {
-        return;
-    }
     let mut bad = |name: &str, msg: String| problems.push((name.to_string(), msg));
+    match be32(post, 0) {
+        // version 1.0 names the 258 standard Macintosh glyphs in their standard order and
+        // nothing else; version 2.5 (deprecated) has one offset byte per glyph
+        Some(0x0001_0000) => {
+            if num_glyphs != 258 {
+                bad("post-v1-numGlyphs", format!("post version 1.0 in a font of {} glyphs", num_glyphs));
+            }
+            return;
+        }
+        Some(0x0002_5000) => {
+            match be16(post, 32).map(usize::from) {
+                Some(n) if n == num_glyphs && post.len() >= 34 + n => {}
+                n => bad("post-v25-shape", format!("post 2.5 of {} bytes says {:?} glyphs, maxp {}", post.len(), n, num_glyphs)),
+            }
+            return;
+        }
+        Some(0x0002_0000) => {}
+        _ => return,
+    }
     let Some(n) = be16(post, 32).map(usize::from) else {
         bad("post-v2-truncated", format!("{} bytes", post.len()));
         return;
